@@ -19,6 +19,7 @@ Points the statement leaves open are modelled as *admitted sets* (see ``expect_r
 from __future__ import annotations
 
 import datetime
+import itertools
 from typing import Any
 
 # -- record alphabet -----------------------------------------------------------------
@@ -71,9 +72,10 @@ FRACS_US = [0, 1, 500_000, 999_999, 123_456]
 EPOCH = datetime.datetime(1970, 1, 1, tzinfo=datetime.timezone.utc)
 
 
-def ts_us(position: int) -> int:
-    """timestamp of the record logged as the ``position``-th call of a run (strictly increasing)."""
-    return BASE_US + position * 1_001_000_000 + FRACS_US[position % len(FRACS_US)]
+def ts_us(position: int, t0_us: int = 0) -> int:
+    """timestamp of the record logged as the ``position``-th call of a run (strictly increasing); ``t0_us`` shifts the
+    clock of a second / third run so that records of different logs stay distinguishable."""
+    return BASE_US + t0_us + position * 1_001_000_000 + FRACS_US[position % len(FRACS_US)]
 
 
 def ts_datetime(us: int) -> datetime.datetime:
@@ -84,7 +86,7 @@ def ts_datetime(us: int) -> datetime.datetime:
 RecSpec = tuple[str, int, str, bool]
 
 
-def ref_record(spec: RecSpec, position: int) -> dict[str, Any]:
+def ref_record(spec: RecSpec, position: int, t0_us: int = 0) -> dict[str, Any]:
     level, tags_i, text_k, exc = spec
     return {
         "text": TEXTS[text_k],
@@ -92,15 +94,62 @@ def ref_record(spec: RecSpec, position: int) -> dict[str, Any]:
         "levelno": LEVEL_NO[level],
         "prio": PRIO_OF_LEVEL[level],
         "tags": TAGS[tags_i],
-        "ts_us": ts_us(position),
+        "ts_us": ts_us(position, t0_us),
         "exc": exc,
     }
 
 
-def ref_log(specs: list[RecSpec], file_level: str = "TRACE") -> list[dict[str, Any]]:
+def ref_log(specs: list[RecSpec], file_level: str = "TRACE", t0_us: int = 0) -> list[dict[str, Any]]:
     """the records a run logs into the file: those at or above the file level, in call order."""
     floor = LEVEL_NO[file_level]
-    return [r for i, s in enumerate(specs) if (r := ref_record(s, i))["levelno"] >= floor]
+    return [r for i, s in enumerate(specs) if (r := ref_record(s, i, t0_us))["levelno"] >= floor]
+
+
+# -- file variants ---------------------------------------------------------------------
+#
+# The statement speaks about reading "with or without the syslog-style priority prefix" and about ".zst, .gz and plain
+# input".  Besides the file exactly as the handler wrote it (every line prefixed, every line newline-terminated) the
+# reader is therefore given the same records as: prefix stripped from every line; prefix stripped from any subset of
+# the lines (a log assembled from prefixed and unprefixed sources); and each of those without the final newline (a log
+# that went through a tool which drops it).  The records - and hence every expected slice - are the same for all variants.
+
+
+def variant_name(mask: tuple[int, ...], nonl: bool) -> str:
+    """mask[i] = 1: line i keeps its '<prio>' prefix."""
+    if all(mask):
+        base = "prefix"
+    elif not any(mask):
+        base = "noprefix"
+    else:
+        base = "mixed-" + "".join(map(str, mask))
+    return base + ("-nonl" if nonl else "")
+
+
+def variant_kind(name: str) -> str:
+    """class of a variant for signatures (the exact mask is part of the message, not of the signature)."""
+    nonl = name.endswith("-nonl")
+    base = name[: -len("-nonl")] if nonl else name
+    if base.startswith("mixed-"):
+        base = "mixed"
+    return base + ("-nonl" if nonl else "")
+
+
+def extra_variants(n: int, masks: str) -> list[tuple[tuple[int, ...], bool]]:
+    """(mask, final newline stripped) of the variants beyond 'prefix' and 'noprefix'.
+
+    masks = "all": every one of the 2^n - 2 mixed prefix patterns; "alt": the two alternating patterns.
+    Newline-less: all prefixed, none prefixed, and the alternating patterns.
+    """
+    if n == 0:
+        return []
+    alt = [tuple((i + ph) % 2 for i in range(n)) for ph in (0, 1)] if n >= 2 else []
+    if masks == "all":
+        mixed = [m for m in itertools.product((0, 1), repeat=n) if any(m) and not all(m)]
+    else:
+        mixed = list(alt)
+    out = [(m, False) for m in mixed]
+    out += [((1,) * n, True), ((0,) * n, True)] + [(m, True) for m in alt]
+    return out
 
 
 # -- record equality -----------------------------------------------------------------
@@ -205,6 +254,22 @@ def expect_hr(prios: list[int], p: int, mode: str, lines: int) -> list[list[int]
         last = flt[len(flt) - lines :] if lines else []
         return _uniq([last, [i for i in range(max(n - lines, 0), n) if prios[i] <= p]])
     raise ValueError(mode)
+
+
+def multi_line_counts(lengths: list[int]) -> list[int]:
+    return sorted({x for n in lengths for x in (0, 1, n - 1, n, n + 1, 100) if x >= 0})
+
+
+def expect_hr_multi(prios_per_file: list[list[int]], p: int, mode: str, lines: int) -> list[list[tuple[int, int]]]:
+    """hr with several FILE arguments = the outputs for the single files, one after the other, each file judged by
+    itself (the line count applies per file); result: admitted lists of (argument position, record index)."""
+    per_file = [expect_hr(prios, p, mode, lines) for prios in prios_per_file]
+    out: list[list[tuple[int, int]]] = []
+    for combo in itertools.product(*per_file):
+        flat = [(pos, i) for pos, idx in enumerate(combo) for i in idx]
+        if flat not in out:
+            out.append(flat)
+    return out
 
 
 def classify(obs: list[int], admitted: list[list[int]]) -> str:
